@@ -207,6 +207,7 @@ type VConn struct {
 	out      []byte // everything mangos wrote
 	writes   []int  // sizes of mangos' Write calls
 	mclosed  bool   // mangos closed its end
+	rdl, wdl time.Time // deadlines set by mangos (virtual clock)
 	nread    int    // bytes mangos consumed
 	readers  int    // mangos Read calls currently blocked
 	stallOut bool   // mangos' writes block
@@ -223,6 +224,9 @@ func (c *mconn) Read(p []byte) (int, error) {
 	h := c.h
 	h.mu.Lock()
 	defer h.mu.Unlock()
+	if !h.rdl.IsZero() && !time.Now().Before(h.rdl) && !h.mclosed {
+		return 0, timeoutErr{}
+	}
 	h.readers++
 	for len(h.in) == 0 && !h.eof && !h.reset && !h.mclosed {
 		h.cv.Wait()
@@ -269,6 +273,9 @@ func (c *mconn) Write(p []byte) (int, error) {
 	if h.reset {
 		return 0, errors.New("vnet: broken pipe")
 	}
+	if !h.wdl.IsZero() && !time.Now().Before(h.wdl) {
+		return 0, timeoutErr{}
+	}
 	h.out = append(h.out, p...)
 	h.writes = append(h.writes, len(p))
 	return len(p), nil
@@ -285,9 +292,34 @@ func (c *mconn) Close() error {
 
 func (c *mconn) LocalAddr() Addr                  { return vaddr("local:" + c.h.ep.Addr) }
 func (c *mconn) RemoteAddr() Addr                 { return vaddr("remote:" + c.h.ep.Addr) }
-func (c *mconn) SetDeadline(time.Time) error      { return nil }
-func (c *mconn) SetReadDeadline(time.Time) error  { return nil }
-func (c *mconn) SetWriteDeadline(time.Time) error { return nil }
+// Deadlines (virtual clock): a Read or Write that is started once its deadline has passed fails
+// with a timeout error, as on a real connection.  (A call already blocked is not woken by the
+// deadline: the transports under test arm deadlines around calls, they do not rely on them to
+// interrupt one.)
+func (c *mconn) SetDeadline(t time.Time) error {
+	c.h.mu.Lock()
+	c.h.rdl, c.h.wdl = t, t
+	c.h.mu.Unlock()
+	return nil
+}
+func (c *mconn) SetReadDeadline(t time.Time) error {
+	c.h.mu.Lock()
+	c.h.rdl = t
+	c.h.mu.Unlock()
+	return nil
+}
+func (c *mconn) SetWriteDeadline(t time.Time) error {
+	c.h.mu.Lock()
+	c.h.wdl = t
+	c.h.mu.Unlock()
+	return nil
+}
+
+type timeoutErr struct{}
+
+func (timeoutErr) Error() string   { return "vnet: i/o timeout" }
+func (timeoutErr) Timeout() bool   { return true }
+func (timeoutErr) Temporary() bool { return true }
 
 // --- harness side -----------------------------------------------------------
 
